@@ -84,7 +84,7 @@ def abstract_quantifiers(ts):
     return [go(t) for t in ts]
 
 
-def valid(hyps, goal, timeout_ms, fast_reject=False):
+def valid(hyps, goal, timeout_ms, fast_reject=False, quant_retry=True):
     # 1) cheap attempt: quantified subformulas as atoms, quantifier-free hypotheses only
     try:
         qf = [h for h in hyps if not z3.is_quantifier(h)]
@@ -97,6 +97,8 @@ def valid(hyps, goal, timeout_ms, fast_reject=False):
         r0 = s0.check()
         if r0 == z3.unsat:
             return True
+        if r0 == z3.sat and fast_reject and not quant_retry:
+            return False
         if r0 == z3.sat and fast_reject:
             # candidate pruning: one short attempt with the quantified hypotheses (shape facts such as
             # "len(cfg.cn) == len(gene.regions)" are quantified preconditions), then "not shown equal"
@@ -153,11 +155,35 @@ def equal_sums(a, b, hyps, timeout_ms, depth=0):
     return valid(hyps2, goal2, timeout_ms, fast_reject=True)
 
 
-def abstract(goal, hyps, timeout_ms=3000, depth=0):
-    """Replace provably equal outermost sums in `goal` by common fresh constants."""
+def zero_of(sort):
+    return z3.RealVal(0) if sort == z3.RealSort() else z3.IntVal(0)
+
+
+def is_zero_sum(a, hyps, timeout_ms, depth=0):
+    """Is every summand provably 0 (e.g. the guard of the sum is false under the hypotheses)?
+    Sound: the sum of the zero function is 0 (BigSum axiom Z, DESIGN.md 2.5)."""
+    if depth > 3 or a.sort() not in (z3.RealSort(), z3.IntSort()):
+        return False
+    la = a.arg(0)
+    c = z3.Const(f"bz!{next(_counter)}", la.sort().domain())
+    body = z3.simplify(z3.Select(la, c))
+    inner = []
+    collect_bigsums(body, inner, set())
+    subs = [(s, zero_of(s.sort())) for s in inner if is_zero_sum(s, hyps, timeout_ms, depth + 1)]
+    if subs:
+        body = z3.simplify(z3.substitute(body, *subs))
+    return valid(hyps, body == zero_of(a.sort()), timeout_ms, fast_reject=True)
+
+
+def abstract(goal, hyps, timeout_ms=3000, depth=0, zeros=False):
+    """Replace provably equal outermost sums in `goal` by common fresh constants (and all-zero sums by 0)."""
     sums = []
     collect_bigsums(goal, sums, set())
     sums = [s for s in sums if not has_free_vars(s)]
+    zs = [(s, zero_of(s.sort())) for s in sums if zeros and is_zero_sum(s, hyps, min(timeout_ms, 3000), depth)]
+    if zs:
+        goal = z3.substitute(goal, *zs)
+        sums = [s for s in sums if not any(s.eq(z) for z, _ in zs)]
     if len(sums) < 2:
         return goal, hyps
     # union-find over sums
@@ -206,4 +232,8 @@ def prove_with_congruence(hyps, goal, timeout_ms=5000):
     if z3.is_and(g):
         return all(prove_with_congruence(h2, c, timeout_ms) for c in g.children())
     g2, h3 = abstract(g, h2, min(timeout_ms, 8000))
-    return valid(h3, g2, timeout_ms)
+    if valid(h3, g2, timeout_ms):
+        return True
+    # second attempt: sums whose summands are all provably 0 (false guard under the hypotheses) are 0
+    g3, h3 = abstract(g, h2, min(timeout_ms, 8000), zeros=True)
+    return valid(h3, g3, timeout_ms)
